@@ -132,7 +132,7 @@ class RINGSyntaxError(RINGError):
     def __repr__(self):
         return '%s(%r, %r, %r, %r)' % (
             type(self).__name__, self.toks, self.lineno, self.colno,
-            self.smiles)
+            self.stream)
 
 
 class RINGReaderError(RINGError):
